@@ -2,4 +2,5 @@ SPECIFICATION Spec
 CONSTANTS
   MaxOps = 3
   Tables = {1, 2, 3}
+  WorldSel = {0}
 INVARIANTS EmitWorld Emit
